@@ -4,10 +4,11 @@ from fractions import Fraction as F
 
 from ..common import seed_rng
 from ..meshgen import INITIAL_GRIDS, Batch, random_op, op_json
+from ..meshops_tie import PROP_MOD_C19 as MESHOPS_PROP_MOD2, PROP_MOD as MESHOPS_PROP_MOD, TRUSTED as MESHOPS_TRUSTED, translate_meshops
 from ..meshlib import PyMesh, oracle_mesh
 from .. import refmesh
 
-PROP_MODS = ['Stbem.Props.C19', 'Stbem.Props.C19Dyadic']
+PROP_MODS = ['Stbem.Props.C19', 'Stbem.Props.C19Dyadic', MESHOPS_PROP_MOD, MESHOPS_PROP_MOD2]
 RULE = ('random bisection histories (bias 0.2/0.5/0.8) from the shipped-curve-like initial meshes, then '
         'refine_grading(sigma, K=4) with sigma in {1, 1.5, 2}: model and code compared leaf by leaf after the call; '
         'search: the real call must return (wall-clock fuse), only refine, leave every leaf in the window '
@@ -17,6 +18,7 @@ TRUSTED = [
     'Lean 4.33 kernel; axioms propext, Classical.choice, Quot.sound only',
     'A-layer mesh model + correspondence harness (as C02)',
     'termination is proved only under the hypotheses stated in Props/C19.lean; for general meshes it is explored',
+    MESHOPS_TRUSTED,
 ]
 ASSUMPTIONS = ['exact coordinates; sigma = p/q compared without roots']
 
@@ -44,6 +46,12 @@ CORPUS = [
 ]
 
 
+def translate(res):
+    """Regenerates lean/Stbem/Gen/MeshOps.lean from the refinement drivers of src/mesh.py (broken obligation when a
+    construct is outside the translated fragment)."""
+    translate_meshops(res)
+
+
 class Timeout(Exception):
     pass
 
@@ -69,7 +77,7 @@ def histories(res, rng, n, maxops):
 
 def correspond(res, tier):
     rng = seed_rng(res.seed, 'C19')
-    batch = Batch()
+    batch = Batch(generated=True)
     n = 60 if tier == 'quick' else 400
     for h, glue, X, T, bias, sigma, L in histories(res, rng, n, 14 if tier == 'quick' else 40):
         def gen(pm, k, L=L, bias=bias, sigma=sigma, h=h):
@@ -103,8 +111,12 @@ def correspond(res, tier):
         if h < 2:
             res.sample(dict(glue=glue, X=batch.histories[-1]['X'], ops=batch.histories[-1]['ops'], leaves=len(pm.mesh.leaf_elements)))
     dis = batch.run()
+    res.notes['model_lines'] = len(batch.lines)
+    res.notes['generated_model_lines'] = batch.n_generated
     if dis is not None:
-        res.broken_obligation('correspondence C19: grading model and src/mesh.py differ', repr(dis)[:6000])
+        res.broken_obligation('correspondence C19: grading model%s and src/mesh.py differ' %
+                              (' REGENERATED from src/mesh.py (gmesh)' if dis.get('kind') == 'disagreement-generated' else ''),
+                              repr(dis)[:6000])
 
 
 def search(res, tier, boost=False):
